@@ -237,6 +237,7 @@ func (n *node) RouteSendEvent(from gen.PID, token gen.Ref, options gen.MessageOp
 		n.log.Trace("RouteSendEvent from %s with token %s", from, token)
 	}
 
+	var consumers []gen.PID
 	if from.Node == n.name {
 		// local producer. check if sender is allowed to send this event
 		value, found := n.events.Load(message.Event)
@@ -248,12 +249,16 @@ func (n *node) RouteSendEvent(from gen.PID, token gen.Ref, options gen.MessageOp
 			return gen.ErrEventOwner
 		}
 
+		event.lock.Lock()
 		if event.last != nil {
 			event.last.Push(message)
 		}
+		consumers = n.targetManager.GetConsumersForTarget(message.Event)
+		event.lock.Unlock()
+	} else {
+		consumers = n.targetManager.GetConsumersForTarget(message.Event)
 	}
 
-	consumers := n.targetManager.GetConsumersForTarget(message.Event)
 	remote := make(map[gen.Atom]bool)
 	// local delivery
 	for _, pid := range consumers {
@@ -760,11 +765,14 @@ func (n *node) RouteLinkEvent(pid gen.PID, target gen.Event) ([]gen.MessageEvent
 		}
 
 		event := value.(*eventOwner)
+		event.lock.Lock()
 		if err := n.targetManager.AddLink(pid, target); err != nil {
+			event.lock.Unlock()
 			return nil, err
 		}
 		_, exist = n.events.Load(target)
 		if err := relationAdded(exist, func() error { return n.targetManager.RemoveLink(pid, target) }, gen.ErrEventUnknown); err != nil {
+			event.lock.Unlock()
 			return nil, err
 		}
 
@@ -780,6 +788,7 @@ func (n *node) RouteLinkEvent(pid gen.PID, target gen.Event) ([]gen.MessageEvent
 				item = item.Next()
 			}
 		}
+		event.lock.Unlock()
 
 		c := atomic.AddInt32(&event.consumers, 1)
 		if event.notify == false || c > 1 {
@@ -1079,11 +1088,14 @@ func (n *node) RouteMonitorEvent(pid gen.PID, target gen.Event) ([]gen.MessageEv
 			return nil, gen.ErrEventUnknown
 		}
 		event := value.(*eventOwner)
+		event.lock.Lock()
 		if err := n.targetManager.AddMonitor(pid, target); err != nil {
+			event.lock.Unlock()
 			return nil, err
 		}
 		_, exist = n.events.Load(target)
 		if err := relationAdded(exist, func() error { return n.targetManager.RemoveMonitor(pid, target) }, gen.ErrEventUnknown); err != nil {
+			event.lock.Unlock()
 			return nil, err
 		}
 
@@ -1099,6 +1111,7 @@ func (n *node) RouteMonitorEvent(pid gen.PID, target gen.Event) ([]gen.MessageEv
 				item = item.Next()
 			}
 		}
+		event.lock.Unlock()
 
 		c := atomic.AddInt32(&event.consumers, 1)
 		if event.notify == false || c > 1 {
